@@ -131,7 +131,7 @@ pub fn prop() -> Prop {
         gen,
         check,
         panic_is_violation: false,
-        budget: (300_000, 8_000_000),
+        budget: (1800000, 48000000),
         extra: Some(extra),
         required: &["breaks_inserted", "multibyte_with_breaks", "space_runs_with_breaks", "multi_paragraph_with_breaks", "stress_texts"],
         known: None,
